@@ -472,3 +472,21 @@ def run(chk):
     C02.check_t4(chk, ml)
     chk.rule_prefix = ""
     chk.rule_filter = None
+    # the run queue and the timer queue are list_t: FIFO / sorted order rest on list.c keeping head, tail and links right (C09)
+    from . import C09
+    chk.rule_prefix = "list."
+    chk.rule_filter = lambda r: r.startswith(("N1", "N2", "N3", "N5", "N6"))
+    C09.run_rules(chk)
+    chk.rule_prefix = ""
+    chk.rule_filter = None
+    # requests accepted from interrupt context travel through kernel.atomic_runq, a messageq_t: hand-out, flag protocol and
+    # slot hand-off are C04's and C07's rules
+    from . import C04, C07
+    chk.rule_prefix = "C04."
+    chk.rule_filter = lambda r: r.startswith(("R1", "R2", "R3", "R4", "R5", "R6"))
+    C04.run_config(chk, "default")
+    chk.rule_prefix = "C07."
+    chk.rule_filter = lambda r: r.startswith("R3")
+    C07.check_r3_slots(chk, "default", build.load_units(build.library_units(), "default"))
+    chk.rule_prefix = ""
+    chk.rule_filter = None
